@@ -37,7 +37,7 @@ def _vec(a):
     return [float(v) for v in np.asarray(a, dtype=float).reshape(-1)]
 
 
-def run_traced(spec, fault=None, gp_faults=None, max_filt_rows=600, want=("call", "filt", "ctl", "hist", "gp")):
+def run_traced(spec, fault=None, gp_faults=None, predict_faults=None, max_filt_rows=600, want=("call", "filt", "ctl", "hist", "gp")):
     """Execute one run described by `spec`; returns a picklable trace dict."""
     import logging
     logging.disable(logging.CRITICAL)
@@ -56,7 +56,7 @@ def run_traced(spec, fault=None, gp_faults=None, max_filt_rows=600, want=("call"
 
     fun, x0, lb, ub, plb, pub, cons_fn, opts, aux = gen.build(spec, fault=fault)
     ev = []
-    tr = {"spec": spec, "fault": fault, "gp_faults": gp_faults, "events": ev, "error": None, "result": None,
+    tr = {"spec": spec, "fault": fault, "gp_faults": gp_faults, "predict_faults": predict_faults, "events": ev, "error": None, "result": None,
           "hdr": None, "final": None, "log": None, "constructed": False}
     state = {"phase": ["pre"], "bads": None, "loop": 0, "gpfit_idx": 0, "cons_calls": []}
 
@@ -310,8 +310,34 @@ def run_traced(spec, fault=None, gp_faults=None, max_filt_rows=600, want=("call"
         patch(IterationHistory, "record", w_rec)
 
     # ---- GP training sets / acquisition -------------------------------------------------------
-    if "gp" in want:
+    if "gp" in want or gp_faults:
         _install_gp_wrappers(patch, state, ev, bb, gpt, es, gp_faults)
+    if predict_faults:
+        # non-finite GP prediction at the incumbent: the k-th call of _get_target_from_gp_ sees NaN predictions
+        import gpyreg as gpr
+        o_gt = bb.BADS._get_target_from_gp_
+        o_pred = gpr.GP.predict
+        state["gt_idx"] = 0
+        state["in_gt"] = False
+
+        def w_gt(self, u, gp, hyp_best):
+            k = state["gt_idx"]
+            state["gt_idx"] += 1
+            state["in_gt"] = k in predict_faults
+            try:
+                return o_gt(self, u, gp, hyp_best)
+            finally:
+                state["in_gt"] = False
+
+        def w_pred(self, *a, **kw):
+            r = o_pred(self, *a, **kw)
+            if state["in_gt"]:
+                ev.append(("PREDFAULT", {"k": state["gt_idx"] - 1}))
+                return tuple(np.full_like(np.asarray(v, dtype=float), np.nan) for v in r)
+            return r
+
+        patch(bb.BADS, "_get_target_from_gp_", w_gt)
+        patch(gpr.GP, "predict", w_pred)
 
     t0 = time.time()
     try:
